@@ -134,4 +134,90 @@ CHECKS = {
          'correspondence only); \\S not modelled; LET, junction lists, <<>> '
          'and @ are in the model but outside prec_determines_tree; its '
          'converse is not proved. No axioms.')),
+ 'C13': dict(
+   design_ref='§6 C13',
+   technique='Coq proof over hand models of codegen.py (bit conversions, DAG-to-program emission with a strict evaluator, generated step), ast-extracted languages table, vm_compute correspondence by executing the generated Python on all states',
+   text=('Proved for all inputs: int/bits round trip for every hint and every '
+         'representable value (negative and Boolean included); the emitted '
+         'straight-line program, run under a strict evaluator (no '
+         'use-before-assign, no double assignment), leaves each root equal to '
+         'the BDD value for every well-formed DAG with complemented edges; '
+         'composed with C14: step returns exactly the requested outputs and '
+         'they satisfy the relation with the state. Languages table (python/c '
+         'define the same keys) by computation over the extracted table. '
+         'Correspondence: raw dumps_bdd_as_code on random multi-root BDDs (both '
+         'back ends) and full generated step executed on all bit-range '
+         'states, compared in Coq with the model and with an explicit oracle.'),
+   note=('Trusted: Coq kernel+vm_compute; meaning of the dd DAG accessors '
+         '(re-checked per sampled DAG); Python exec of generated text; text '
+         'rendering (separators/comments) outside the AST model; C target '
+         'structural only. Model describes the F4/F7-repaired code. No axioms.')),
+ 'C14': dict(
+   design_ref='§6 C14',
+   technique='Coq proof over a hand model of functions.py on BDDs-by-meaning + vm_compute truth-table correspondence in three modes (CUDD restrict, no-CUDD on both back ends)',
+   text=('Proved for every relation, output list, set-iteration order and '
+         'every restrict meeting its two-clause contract: extracted functions '
+         'depend on no chosen output bit; on every input with some satisfying '
+         'output the functions values satisfy the relation (ignored outputs '
+         'arbitrary); care = p xor n is exactly the solvable inputs before '
+         'widening, widening only enlarges it, forced values are returned; '
+         'the asserts of make_functions never fire. Correspondence compares '
+         'bits chosen, intermediate relations, care and function tables with '
+         'the real code; restrict contract re-checked on every sampled call.'),
+   note=('Trusted: Coq kernel+vm_compute; dd by meaning; cudd.restrict only '
+         'through its contract; set iteration orders observed through a '
+         'logging proxy; sampled tie. No axioms.')),
+ 'C17': dict(
+   design_ref='§6 C17',
+   technique='Coq proofs for the omega side (parsers_agree, fetch_sound, frame/redeclare_guard/idempotent/history_independent, back-end independence under an explicit dd contract) + 4-configuration differential run against one model run',
+   text=('Proved for all inputs: the recursive (bdd.Parser/BDDNodes, with '
+         'memory buffers and registers) and iterative (bdd_iterative) prefix '
+         'translators return the same node or both reject on every token '
+         'list without @; both accept exactly the relational spec of '
+         'well-formed prefix expressions; in every state reachable by any '
+         'interleaving of cache/fetch/clear/collect/allocate events with '
+         'adversarial identifier re-use, _fetch_expr returns only expressions '
+         'denoting the live node (the model without re-validation is '
+         'refuted); frame, redeclaration guard, idempotence and history '
+         'independence of a context storing truth tables. PARTIAL: that '
+         'dd.autoref and dd.cudd agree and that dd reorder/GC preserve '
+         'meaning is outside the model; for that part the check is '
+         'differential only (2 back ends x 2 translators vs one model run).'),
+   note=('Trusted: Coq kernel+vm_compute; dd contract stated as an explicit '
+         'hypothesis of C17_full; add_expr modelled on a formula fragment; '
+         'to_expr by its declarations and the meaning of its result. No axioms.')),
+ 'C19': dict(
+   design_ref='§6 C19',
+   technique='Coq proofs on a hand model of steps.py (strings, dictionaries, arbitrary pick) + per-call correspondence in Coq on real gr1 transducers and assemblies',
+   text=('Proved for all inputs and every pick: stepper step/init soundness '
+         '(enabled -> returned values cover all implementation variables and '
+         'satisfy the action; disabled -> error; missing support -> error); '
+         'name-mangling round trip; local view equals its specification; '
+         'assembly isolation (a component sees only variables it declares; '
+         'collisions are signalled); every recorded assembly step satisfies '
+         'every component (induction over the run). The F9 defect is kept as '
+         'refuted regression Examples for the old _omit_prefix. Every '
+         'init/step call of the real omega.steps on gr1 transducers and '
+         'hand-made machines, and whole assembly runs with adversarial '
+         'names, are compared with the model in Coq.'),
+   note=('Trusted: Coq kernel+vm_compute; hand model tied by sampled '
+         'correspondence; dd let/support/pick by meaning; EnumStrategyStepper '
+         'and Component not modelled; model describes the F9-repaired code. '
+         'No axioms.')),
+ 'C20': dict(
+   design_ref='§6 C20',
+   technique='Coq proof over a hand-written model of logicizer.py + syntax.conj/disj (tie H), vm_compute truth-table correspondence on exhaustive small and random labelled multigraphs',
+   text=('For all graphs, label meanings, valuations and flags: _recurse_op '
+         'denotes n-ary and/or (balanced split 2^((n-1).bit_length()-1), '
+         'TRUE/FALSE absorption); the owner action equals edge step (or '
+         'stutter) and next node label; init equals initial nodes and node '
+         'labels; dead ends block; the other player is TRUE unless sys and '
+         'receptive (exact receptive meaning proved); node variable range '
+         'and ownership; runs equal labelled paths. Truth tables of the four '
+         'BDDs of the real graph_to_logic compared in Coq on all multigraphs '
+         'with <= 2 nodes / 4 edges (quick) or <= 3 nodes (thorough) plus '
+         'random graphs, both back ends.'),
+   note=('Trusted: Coq kernel+vm_compute; hand model tied by '
+         'sampled/exhaustive correspondence; string->BDD (add_expr) and the '
+         'meaning of the fixed label alphabet; dd. No axioms.')),
 }
